@@ -23,6 +23,14 @@ impl Clock {
     }
 
     pub(crate) fn now(&self) -> Instant {
+        // Verification hook (compiled only with `--cfg mini_moka_verif`): a callback right
+        // after a reading of the mock clock was taken and before it is returned.
+        #[cfg(mini_moka_verif)]
+        if let Some(mock) = &self.mock {
+            let reading = *mock.now.read().expect("lock poisoned");
+            crate::verif::after_clock_read();
+            return reading;
+        }
         if let Some(mock) = &self.mock {
             *mock.now.read().expect("lock poisoned")
         } else {
